@@ -17,7 +17,12 @@ Scope predicates used as hypotheses (all decidable `Bool`s, Spec/Suppress.lean):
 `RawWF` (positioned obeying calls point into the file), `RawAst` (the visitor's calls use no
 `_FakeNode`), `NoIgnore` (the base file has no ignore comment), `plainCode` (the line a trailing comment is
 appended to has no `#` and is not blank), `Sel.ok` (the code name has no `#` / `]`).
-Exception classes: `D11_lineOneWrap` (node_visitor.py:662), `D11_splitlinesMismatch` (node_visitor.py:236).
+Exception classes: none left. The two the code had — `lineOneWrap` (`lines[lineno - 2]` without the
+`lineno >= 2` guard) and `splitlinesMismatch` (`_lines()` = `contents.splitlines()`) — were repaired in
+/repo by 0cba813 and ba62f49; the model follows the repaired code and the statements that used to carry
+`¬ D11_…` hypotheses are proved at full strength. Theorems named `old_…` are regression documentation:
+they are about `oldShowError` / `oldRun` / `oldCheck` / `oldPyLines` (Core/Emit.lean, the two functions
+as they were) and record why the repairs were needed.
 -/
 namespace Pya.C11
 
@@ -86,7 +91,7 @@ theorem file_level_ignore_all (en : String → Bool) (lines : List Line) (raw : 
   rw [e, hc] at this
   cases this
 
-/-! ## Model = spec outside the wrap-around class -/
+/-! ## Model = spec -/
 
 /-- Full statement: the check produces exactly the failures the declarative spec lists. -/
 def check_eq_spec_full : Prop :=
@@ -94,26 +99,27 @@ def check_eq_spec_full : Prop :=
     RawWF lines raw = true → RawAst raw = true →
     ∃ st, check en lines raw = some st ∧ st.fails = specCheck en lines raw
 
-/-- **check_eq_spec, partial.** For every file, stream and settings outside `D11_lineOneWrap`: the
-run does not crash and its failure list is, in order, the counted first occurrences that no ignore
+/-- **check_eq_spec (full strength since 0cba813).** For every file, stream and settings: the run
+does not crash and its failure list is, in order, the counted first occurrences that no ignore
 comment targets (file level / trailing / own-line-above), followed by one `unused_ignore` per
 comment line credited with no suppression and one `bare_ignore` per code-less comment line. -/
-theorem check_eq_spec_partial (en : String → Bool) (lines : List Line) (raw : List Raw)
-    (hwf : RawWF lines raw = true) (hast : RawAst raw = true)
-    (hD : D11_lineOneWrap en lines raw = false) :
-    ∃ st, check en lines raw = some st ∧ st.fails = specCheck en lines raw :=
-  check_eq_spec en lines raw hwf hast hD
+theorem check_eq_spec : check_eq_spec_full :=
+  fun en lines raw hwf hast => check_eq_spec_aux en lines raw hwf hast
 
-/-- The witness file of the exception class: `w: int = "s"` / `# static analysis: ignore`. -/
+/-- The witness file of the former exception class: `w: int = "s"` / `# static analysis: ignore`. -/
 def wrapLines : List Line := ["w: int = \"s\"".toList, "# static analysis: ignore".toList]
 def wrapRaw : List Raw := [{ node := .ast 0, code := some "incompatible_assignment", pos := some (1, 0) }]
 
-/-- **Exception class `lineOneWrap`.** The comment on the *last* line suppresses the diagnostic on
-line 1 (and is reported as unused all the same): the full statement is false. -/
-theorem lineOneWrap_witness : ¬ check_eq_spec_full := by
+/-- **Regression (`lineOneWrap`, repaired by 0cba813).** Before the repair the comment on the *last*
+line suppressed the diagnostic on line 1 (and was reported as unused all the same): the statement
+of `check_eq_spec` was false of the old `show_error`. -/
+theorem old_lineOneWrap_witness :
+    ¬ ∀ (en : String → Bool) (lines : List Line) (raw : List Raw),
+      RawWF lines raw = true → RawAst raw = true →
+      ∃ st, oldCheck en lines raw = some st ∧ st.fails = specCheck en lines raw := by
   intro h
   obtain ⟨st, h1, h2⟩ := h allOn wrapLines wrapRaw (by decide) (by decide)
-  have e : check allOn wrapLines wrapRaw = some
+  have e : oldCheck allOn wrapLines wrapRaw = some
       { seen := [⟨.fake 2 0, .inl "bare_ignore"⟩, ⟨.fake 2 0, .inl "unused_ignore"⟩,
                  ⟨.ast 0, .inl "incompatible_assignment"⟩],
         used := [-1],
@@ -125,35 +131,41 @@ theorem lineOneWrap_witness : ¬ check_eq_spec_full := by
   revert h2
   decide
 
+/-- The same input on the repaired code: the line-1 diagnostic is reported. -/
+example : (check allOn wrapLines wrapRaw).map (·.fails) = some (specCheck allOn wrapLines wrapRaw) ∧
+    (specCheck allOn wrapLines wrapRaw).length = 3 := by decide
+
 example : D11_lineOneWrap allOn wrapLines wrapRaw = true := by decide
 
 /-! ## The lines `show_error` looks at are the lines the diagnostics are numbered by -/
 
-/-- Full statement: `_lines()` (`str.splitlines()`) yields the physical lines of the tokenizer. -/
+/-- Full statement: `_lines()` yields the physical lines of the tokenizer. -/
 def lines_agree_full : Prop := ∀ src : List Char, pyLines src = tokLines src
 
-/-- **lines_agree, partial**: true of every source text without a character that only
-`splitlines()` treats as a line boundary. -/
-theorem lines_agree_partial (src : List Char) (h : D11_splitlinesMismatch src = false) :
-    pyLines src = tokLines src :=
-  pyLines_eq_tokLines src h
+/-- **lines_agree (full strength since ba62f49).** -/
+theorem lines_agree : lines_agree_full := pyLines_eq_tokLines
 
-/-- **Exception class `splitlinesMismatch`**: a form feed splits a line for `splitlines()` only. -/
-theorem splitlinesMismatch_witness : ¬ lines_agree_full := by
+/-- **Regression (`splitlinesMismatch`, repaired by ba62f49).** `contents.splitlines()` agreed with
+the tokenizer only on sources without a character that `splitlines()` alone treats as a line
+boundary … -/
+theorem old_lines_agree_partial (src : List Char) (h : D11_splitlinesMismatch src = false) :
+    oldPyLines src = tokLines src :=
+  oldPyLines_eq_tokLines src h
+
+/-- … and a form feed split a line for `splitlines()` only. -/
+theorem old_splitlinesMismatch_witness : ¬ ∀ src : List Char, oldPyLines src = tokLines src := by
   intro h
   have := h "a\x0cb".toList
   revert this
   decide
 
-/-- **From source text to failures, partial (both classes excluded).** The check run on the lines
-pyanalyze extracts from the source produces what the spec prescribes for the tokenizer's lines. -/
-theorem check_source_eq_spec_partial (en : String → Bool) (src : List Char) (raw : List Raw)
-    (hs : D11_splitlinesMismatch src = false)
-    (hwf : RawWF (tokLines src) raw = true) (hast : RawAst raw = true)
-    (hD : D11_lineOneWrap en (tokLines src) raw = false) :
+/-- **From source text to failures (full strength).** The check run on the lines pyanalyze
+extracts from the source produces what the spec prescribes for the tokenizer's lines. -/
+theorem check_source_eq_spec (en : String → Bool) (src : List Char) (raw : List Raw)
+    (hwf : RawWF (tokLines src) raw = true) (hast : RawAst raw = true) :
     ∃ st, check en (pyLines src) raw = some st ∧ st.fails = specCheck en (tokLines src) raw := by
-  rw [pyLines_eq_tokLines src hs]
-  exact check_eq_spec en (tokLines src) raw hwf hast hD
+  rw [pyLines_eq_tokLines src]
+  exact check_eq_spec_aux en (tokLines src) raw hwf hast
 
 /-! ## One comment added to a file without ignore comments -/
 
@@ -173,7 +185,7 @@ theorem trailing_ignore_exact (en : String → Bool) (lines : List Line) (raw : 
 /-- Full statement for the own-line form: an ignore comment on a line of its own (indented by `k`)
 inserted before line `i + 1` — not inside the leading comment block — suppresses exactly the matching
 diagnostics of the *next* line; the raw stream is renumbered (`Raw.shift`). `i = lines.length` is the
-comment after the last line. -/
+comment after the last line, which targets nothing. -/
 def ownline_ignore_exact_full : Prop :=
   ∀ (en : String → Bool) (lines : List Line) (raw : List Raw) (i k : Nat) (s : Sel),
     i ≤ lines.length → NoIgnore lines = true → RawWF lines raw = true →
@@ -182,25 +194,27 @@ def ownline_ignore_exact_full : Prop :=
       run en (insertAt lines i (ownLine k s)) {} (raw.map (Raw.shift i)) = some st' ∧
       st'.fails = (st.fails.filter fun r => !s.hits (i + 1) r).map (Raw.shift i)
 
-/-- **ownline_ignore_exact, partial**: every position except after the last line. -/
-theorem ownline_ignore_exact_partial (en : String → Bool) (lines : List Line) (raw : List Raw) (i k : Nat)
-    (s : Sel) (hi : i < lines.length) (hno : NoIgnore lines = true) (hwf : RawWF lines raw = true)
-    (hpos : (decide (1 ≤ k) || (lines.take i).any (fun l => l.head? != some '#')) = true) :
-    ∃ st st', run en lines {} raw = some st ∧
-      run en (insertAt lines i (ownLine k s)) {} (raw.map (Raw.shift i)) = some st' ∧
-      st'.fails = (st.fails.filter fun r => !s.hits (i + 1) r).map (Raw.shift i) :=
-  insert_exact en lines raw i k s hi hno hwf _
-    (ownline_suppressed lines i k s (Nat.le_of_lt hi) hno hpos)
+/-- **ownline_ignore_exact (full strength since 0cba813)**: every position, the one after the last
+line included. -/
+theorem ownline_ignore_exact : ownline_ignore_exact_full :=
+  fun en lines raw i k s hi hno hwf hpos =>
+    insert_exact en lines raw i k s hi hno hwf _ (ownline_suppressed lines i k s hi hno hpos)
 
-/-- **Exception class `lineOneWrap`, insertion form**: the own-line comment after the last line
-(`i = lines.length`), which should target nothing, removes the diagnostic on line 1. -/
-theorem ownline_last_line_witness : ¬ ownline_ignore_exact_full := by
+/-- **Regression (`lineOneWrap`, insertion form).** Before 0cba813 the own-line comment after the
+last line (`i = lines.length`), which should target nothing, removed the diagnostic on line 1. -/
+theorem old_ownline_last_line_witness :
+    ¬ ∀ (en : String → Bool) (lines : List Line) (raw : List Raw) (i k : Nat) (s : Sel),
+      i ≤ lines.length → NoIgnore lines = true → RawWF lines raw = true →
+      (decide (1 ≤ k) || (lines.take i).any (fun l => l.head? != some '#')) = true →
+      ∃ st st', oldRun en lines {} raw = some st ∧
+        oldRun en (insertAt lines i (ownLine k s)) {} (raw.map (Raw.shift i)) = some st' ∧
+        st'.fails = (st.fails.filter fun r => !s.hits (i + 1) r).map (Raw.shift i) := by
   intro h
   obtain ⟨st, st', h1, h2, h3⟩ := h allOn ["w: int = \"s\"".toList, "x = 1".toList] wrapRaw 2 0 .bare
     (by decide) (by decide) (by decide) (by decide)
-  have e1 : run allOn ["w: int = \"s\"".toList, "x = 1".toList] {} wrapRaw = some
+  have e1 : oldRun allOn ["w: int = \"s\"".toList, "x = 1".toList] {} wrapRaw = some
       { seen := [⟨.ast 0, .inl "incompatible_assignment"⟩], used := [], fails := wrapRaw } := by decide
-  have e2 : run allOn (insertAt ["w: int = \"s\"".toList, "x = 1".toList] 2 (ownLine 0 .bare)) {}
+  have e2 : oldRun allOn (insertAt ["w: int = \"s\"".toList, "x = 1".toList] 2 (ownLine 0 .bare)) {}
       (wrapRaw.map (Raw.shift 2)) = some
       { seen := [⟨.ast 0, .inl "incompatible_assignment"⟩], used := [-1], fails := [] } := by decide
   rw [e1] at h1; rw [e2] at h2
@@ -213,38 +227,36 @@ theorem ownline_last_line_witness : ¬ ownline_ignore_exact_full := by
 right after) the leading comment block suppresses every diagnostic the comment names — the whole
 file when bare — wherever it lies and whether or not it obeys per-line comments. -/
 theorem file_level_ignore_exact (en : String → Bool) (lines : List Line) (raw : List Raw) (i : Nat)
-    (s : Sel) (hi : i < lines.length) (hno : NoIgnore lines = true) (hwf : RawWF lines raw = true)
+    (s : Sel) (hi : i ≤ lines.length) (hno : NoIgnore lines = true) (hwf : RawWF lines raw = true)
     (hlead : (lines.take i).all (fun l => l.head? == some '#') = true) :
     ∃ st st', run en lines {} raw = some st ∧
       run en (insertAt lines i (ownLine 0 s)) {} (raw.map (Raw.shift i)) = some st' ∧
       st'.fails = (st.fails.filter fun r => !s.matches r.code).map (Raw.shift i) :=
-  insert_exact en lines raw i 0 s hi hno hwf _
-    (filelevel_suppressed lines i s (Nat.le_of_lt hi) hno hlead)
+  insert_exact en lines raw i 0 s hi hno hwf _ (filelevel_suppressed lines i s hi hno hlead)
 
 /-! ## Unused ignore comments -/
 
-/-- **unused_iff_suppressed_nothing, partial** (outside `D11_lineOneWrap`). A line carrying an
-ignore comment is handed to the `unused_ignore` report exactly when no counted diagnostic is
-credited to it (credit: first matching line of the leading block, else the diagnostic's own line,
-else the line above — so of two comments covering one diagnostic only one is "used"). -/
-theorem unused_iff_suppressed_nothing_partial (en : String → Bool) (lines : List Line) (raw : List Raw)
+/-- **unused_iff_suppressed_nothing (full strength since 0cba813).** A line carrying an ignore
+comment is handed to the `unused_ignore` report exactly when no counted diagnostic is credited to
+it (credit: first matching line of the leading block, else the diagnostic's own line, else the
+line above — so of two comments covering one diagnostic only one is "used"). -/
+theorem unused_iff_suppressed_nothing (en : String → Bool) (lines : List Line) (raw : List Raw)
     (st : St) (hrun : run en lines {} raw = some st) (hwf : RawWF lines raw = true)
-    (hD : D11_lineOneWrap en lines raw = false) (p : Nat × Line) (hp : p ∈ commentLines lines) :
-    commentDiag "unused_ignore" p.1 p.2 ∈ unusedRaws lines st.used ↔
-      ∀ r ∈ nub (raw.filter (counted en)), credited lines r ≠ some p.1 :=
-  unused_pointwise en lines raw st hrun hwf hD p hp
-
-/-- **unused_iff_suppressed_nothing for non-overlapping comments, partial.** When no diagnostic is
-covered by two comment lines (`UniqueCover`; e.g. one comment added to a clean file), "credited
-with" is simply "would suppress": the comment on line `p.1 + 1` is reported as unused exactly when it
-covers none of the counted diagnostics. -/
-theorem unused_iff_covers_nothing_partial (en : String → Bool) (lines : List Line) (raw : List Raw)
-    (st : St) (hrun : run en lines {} raw = some st) (hwf : RawWF lines raw = true)
-    (hD : D11_lineOneWrap en lines raw = false) (hu : UniqueCover en lines raw = true)
     (p : Nat × Line) (hp : p ∈ commentLines lines) :
     commentDiag "unused_ignore" p.1 p.2 ∈ unusedRaws lines st.used ↔
+      ∀ r ∈ nub (raw.filter (counted en)), credited lines r ≠ some p.1 :=
+  unused_pointwise en lines raw st hrun hwf p hp
+
+/-- **unused_iff_suppressed_nothing for non-overlapping comments.** When no diagnostic is covered
+by two comment lines (`UniqueCover`, a scope predicate; e.g. one comment added to a clean file),
+"credited with" is simply "would suppress": the comment on line `p.1 + 1` is reported as unused
+exactly when it covers none of the counted diagnostics. -/
+theorem unused_iff_covers_nothing (en : String → Bool) (lines : List Line) (raw : List Raw)
+    (st : St) (hrun : run en lines {} raw = some st) (hwf : RawWF lines raw = true)
+    (hu : UniqueCover en lines raw = true) (p : Nat × Line) (hp : p ∈ commentLines lines) :
+    commentDiag "unused_ignore" p.1 p.2 ∈ unusedRaws lines st.used ↔
       ∀ r ∈ nub (raw.filter (counted en)), covers lines p.1 r = false := by
-  rw [unused_pointwise en lines raw st hrun hwf hD p hp]
+  rw [unused_pointwise en lines raw st hrun hwf p hp]
   have := credited_iff_covers hu p.1
   constructor
   · intro h r hr
@@ -258,10 +270,10 @@ theorem unused_iff_covers_nothing_partial (en : String → Bool) (lines : List L
     rw [h r' hr'] at h'
     cases h'
 
-/-- In the exception class the statement fails: the last-line comment of `wrapLines` suppressed the
-line-1 diagnostic and is reported unused. -/
-theorem unused_wrap_witness :
-    ∃ st, run allOn wrapLines {} wrapRaw = some st ∧ st.fails = [] ∧
+/-- **Regression (`lineOneWrap`).** Before 0cba813 the last-line comment of `wrapLines` suppressed
+the line-1 diagnostic *and* was reported unused (index -1 was recorded as used). -/
+theorem old_unused_wrap_witness :
+    ∃ st, oldRun allOn wrapLines {} wrapRaw = some st ∧ st.fails = [] ∧
       commentDiag "unused_ignore" 1 wrapLines[1] ∈ unusedRaws wrapLines st.used := by
   refine ⟨{ seen := [⟨.ast 0, .inl "incompatible_assignment"⟩], used := [-1], fails := [] }, by decide, rfl, by decide⟩
 
@@ -293,8 +305,6 @@ def exRaw : List Raw :=
 
 example : NoIgnore exLines = true ∧ RawWF exLines exRaw = true ∧ RawAst exRaw = true := by decide
 example : plainCode exLines[2] = true ∧ (Sel.code "undefined_name").ok = true := by decide
-example : D11_lineOneWrap allOn (exLines.set 2 (withTrailing exLines[2] (.code "undefined_name"))) exRaw = false := by
-  decide
 -- the trailing comment removes one of three failures
 example : (run allOn exLines {} exRaw).map (·.fails.length) = some 3 := by decide
 example : (run allOn (exLines.set 2 (withTrailing exLines[2] (.code "undefined_name"))) {} exRaw).map
@@ -302,11 +312,14 @@ example : (run allOn (exLines.set 2 (withTrailing exLines[2] (.code "undefined_n
 -- own-line position that is not in the leading block; file-level position (`i = 0`)
 example : (decide (1 ≤ 4) || (exLines.take 2).any (fun l => l.head? != some '#')) = true := by decide
 example : (exLines.take 0).all (fun l => l.head? == some '#') = true := by decide
--- a file with comments outside the exception class, on which both reports fire
-example : D11_lineOneWrap allOn ["# static analysis: ignore[x]".toList, "y = 1  # static analysis: ignore".toList] [] = false ∧
-    (check allOn ["# static analysis: ignore[x]".toList, "y = 1  # static analysis: ignore".toList] []).map
+-- a file with comments on which both end-of-file reports fire
+example : (check allOn ["# static analysis: ignore[x]".toList, "y = 1  # static analysis: ignore".toList] []).map
       (·.fails.length) = some 3 := by decide
--- a source with \r\n and \r line ends, a comment and a diagnostic: outside both classes
+-- own-line comment after the last line: a legal position of `ownline_ignore_exact`
+example : (2 : Nat) ≤ ["w: int = \"s\"".toList, "x = 1".toList].length ∧
+    (run allOn (insertAt ["w: int = \"s\"".toList, "x = 1".toList] 2 (ownLine 0 .bare)) {}
+      (wrapRaw.map (Raw.shift 2))).map (·.fails) = some wrapRaw := by decide
+-- a source with \r\n and \r line ends, a comment and a diagnostic
 example : D11_splitlinesMismatch "x = y  # static analysis: ignore\r\nz = 1\rw = 2\n".toList = false ∧
     (tokLines "x = y  # static analysis: ignore\r\nz = 1\rw = 2\n".toList).length = 3 := by decide
 -- a used and an unused comment in one file, no overlap
